@@ -19,8 +19,8 @@ Inventoried (fail-closed on anything the classification cannot read):
                     PrivateBuffer  a local name all of whose bindings in the function are `io.BytesIO(...)`/`BytesIO(...)`, or a
                                    parameter such that every call of the function in the repository passes a PrivateBuffer
                     CliOutput      a name bound by `with args.output.open(...) as name` in dissect/hypervisor/tools/envelope.py
-                    PureValue      `x.replace(a, b)` with exactly two positional arguments (str/bytes.replace; Path.replace and
-                                   os.replace on a path object take one)
+                    PureValue      `x.replace(a, b[, n])` with two or more positional arguments (str/bytes.replace; Path.replace
+                                   and os.replace on a path object take one), `c.remove(x)` on a list/set built in the function
                     Unknown        anything else
 * runtime_imports every import statement that executes at run time (not under `if TYPE_CHECKING:`), at any depth
 * os_uses         every attribute taken from the `os` module (through any alias), and every name imported from it
@@ -334,8 +334,10 @@ class Inventory:
                             muts.append((rel, qual, line, f.attr, src_of(recv), "Unknown"))
                             continue
                         target = call.args[0]
-                    if f.attr == "replace" and len(call.args) == 2 and not call.keywords and target is recv:
-                        cls = "PureValue"
+                    if f.attr == "replace" and len(call.args) >= 2 and target is recv:
+                        cls = "PureValue"       # str/bytes.replace(old, new[, count]); Path.replace / os.replace take one path
+                    elif f.attr == "remove" and isinstance(recv, ast.Name) and self.is_local_container(fn, recv.id):
+                        cls = "PureValue"       # list.remove / set.remove on a container built in the same function
                     elif isinstance(target, ast.Name):
                         cls = self.classify_name(rel, fn, target.id)
                     else:
@@ -344,6 +346,24 @@ class Inventory:
                 elif isinstance(f, ast.Name) and f.id in MUTATORS:
                     muts.append((rel, qual, line, f.id, "<function>", "Unknown"))
         return opens, muts, imports, os_uses
+
+    @staticmethod
+    def is_local_container(func, name):
+        """every binding of the local name is a list/set/dict display, a comprehension, or list()/set()/dict()/sorted()"""
+        if func is None:
+            return False
+        bs = bindings_of(func, name)
+        if not bs:
+            return False
+        for b in bs:
+            if b[0] != "assign":
+                return False
+            v = b[1]
+            ok = isinstance(v, (ast.List, ast.Set, ast.Dict, ast.ListComp, ast.SetComp, ast.DictComp)) or \
+                (isinstance(v, ast.Call) and isinstance(v.func, ast.Name) and v.func.id in ("list", "set", "dict", "sorted"))
+            if not ok:
+                return False
+        return True
 
     @staticmethod
     def module_names(sc):
